@@ -246,6 +246,20 @@ func (p c01) one(c *fw.Ctx, stmts []*gt.Node, src string) {
 	if kind == "" {
 		return
 	}
+	if kind == "timeout" {
+		// the reference needs at most a few hundred thousand steps; 3 s not being enough on a saturated machine decides
+		// nothing: only a program that still does not finish with twenty times the budget is reported
+		c01MaxDur = 60 * time.Second
+		k2, _, ok2, _ := c01Run(stmts, src, false, false)
+		c01MaxDur = 3 * time.Second
+		if !ok2 || k2 != "timeout" {
+			c.Count("slow_runs_not_counted", 1)
+			if k2 == "" || !ok2 {
+				return
+			}
+			kind = k2
+		}
+	}
 	// shrink with the deterministic renderer
 	tries := 0
 	fails := func(ss []*gt.Node) bool {
